@@ -176,5 +176,30 @@ int main(int argc, char** argv) {
     snprintf(line, sizeof line, "{\"ev\":\"finish\",\"edge\":\"%s\",\"t\":%lld,\"pid\":%d,\"status\":%d,\"wrote\":[%s]}\n", id, now_ns(), (int)getpid(), fail, wrote);
     trace(line);
   }
+  /* VERIF_BIGPRINT="key:n": as its very last action the command writes n/6 numbered lines between its tags in one go
+   * and exits at once: more than ninja reads in one piece is still in the pipe when the hang-up arrives */
+  const char* bp = envlookup("VERIF_BIGPRINT", id);
+  if (bp) {
+    long n = atol(bp) / 6; size_t cap = (size_t)n * 6 + 2 * strlen(id) + 16; char* b = malloc(cap); size_t l = 0;
+    l += snprintf(b + l, cap - l, "<%s>", id);
+    for (long i = 0; i < n; i++) l += snprintf(b + l, cap - l, "%05ld\n", i % 100000);
+    l += snprintf(b + l, cap - l, "</%s>\n", id);
+    /* odd n: ninja does not get the CPU while the command writes and exits (a loaded machine, owned by the harness):
+     * it is stopped now and continued 150 ms later by a detached helper that holds none of the pipe's descriptors */
+    if (atol(bp) % 2) {
+      pid_t sh = getppid(), nj = 0; char pth[64], st[512]; snprintf(pth, sizeof pth, "/proc/%d/stat", (int)sh);
+      FILE* f = fopen(pth, "r");
+      if (f) { if (fgets(st, sizeof st, f)) { char* r = strrchr(st, ')'); int pp = 0; char c; if (r && sscanf(r + 1, " %c %d", &c, &pp) == 2) nj = pp; } fclose(f); }
+      /* with `exec vtool` the shell is gone and the parent is ninja itself */
+      { char cm[64] = ""; snprintf(pth, sizeof pth, "/proc/%d/comm", (int)sh); FILE* g = fopen(pth, "r"); if (g) { if (fgets(cm, sizeof cm, g)) {} fclose(g); }
+        if (!strncmp(cm, "ninja", 5)) nj = sh; }
+      if (nj > 1) {
+        pid_t h = fork();
+        if (h == 0) { setsid(); for (int fd = 0; fd < 64; fd++) close(fd); usleep(150000); kill(nj, SIGCONT); _exit(0); }
+        if (h > 0) kill(nj, SIGSTOP);
+      }
+    }
+    size_t off = 0; while (off < l) { ssize_t w = write(1, b + off, l - off); if (w <= 0) break; off += (size_t)w; }
+  }
   return fail;
 }
